@@ -1444,6 +1444,44 @@ func runVehicleIdentity(c *Ctx) {
 					}
 				}
 			}
+			// ... or a predicate of the module on the built value that answered false, where the predicate answers
+			// true exactly for the zero identifier (a single return of `v == VehicleID{}`, or of all three strings empty)
+			for _, a := range r.conds {
+				call, isCall := a.v.(*ssa.Call)
+				if !isCall || !a.opaque || !a.neg || call.Call.IsInvoke() || len(call.Call.Args) != 1 || typeName(call.Call.Args[0].Type()) != "gtfs.VehicleID" {
+					continue
+				}
+				h := call.Call.StaticCallee()
+				if h == nil || !p.isModuleFn(h) || len(h.Blocks) != 1 {
+					continue
+				}
+				ret, isRet := h.Blocks[0].Instrs[len(h.Blocks[0].Instrs)-1].(*ssa.Return)
+				if !isRet || len(ret.Results) != 1 {
+					continue
+				}
+				if bo, isBo := ret.Results[0].(*ssa.BinOp); isBo && bo.Op == token.EQL && typeName(bo.X.Type()) == "gtfs.VehicleID" {
+					zero := func(v ssa.Value) bool {
+						if ld, isLd := v.(*ssa.UnOp); isLd && ld.Op == token.MUL {
+							if al, isAl := ld.X.(*ssa.Alloc); isAl && len(cellStores(al)) == 0 {
+								written := false
+								for _, rr := range *al.Referrers() {
+									if _, isFA := rr.(*ssa.FieldAddr); isFA {
+										written = true
+									}
+								}
+								return !written
+							}
+						}
+						if k, isK := v.(*ssa.Const); isK {
+							return k.Value == nil
+						}
+						return false
+					}
+					if zero(bo.X) || zero(bo.Y) {
+						excluded = true
+					}
+				}
+			}
 			if !excluded {
 				ok = false
 				detail = "returns an identifier under [" + condsString(r.conds) + "], which does not exclude id, label and licence plate all being empty"
